@@ -388,6 +388,115 @@ def _find(ex, st, args, dest_ty, func, where):
     return result
 
 
+def _iter_items(ex, st, it, where):
+    """(sequence, start index, cap) of a slice iterator value"""
+    it = deep(ex, st, it)
+    if not (isinstance(it, VStruct) and it.name == "SliceIter"):
+        raise Unsupported("iterator adaptor on %r" % (it,))
+    s, idx = it.f
+    if conc(idx.t, "iterator position") != 0:
+        raise Unsupported("adaptor over a partially consumed iterator")
+    cap = len(s.items) if isinstance(s, VList) else ex.cand_cap
+    if isinstance(s, VSeq):
+        ex.oblig("model-bound", where, "sequence longer than the model capacity %d" % cap, z3.And(st.guard, s.len > cap))
+    return s, cap
+
+
+def _any_all(ex, st, args, dest_ty, func, where):
+    """slice::Iter::any / all with the closure executed from its MIR on each element"""
+    s, cap = _iter_items(ex, st, args[0], where)
+    clos = closure_of(args[1])
+    is_any = "::any::<" in func
+    acc = z3.BoolVal(not is_any)
+    for i in reversed(range(cap)):
+        def f(s2, i=i):
+            return call_closure(ex, s2, clos, [VRef("val", val=_iter_elem(s, I(i)))], where)
+        r = pure_call(ex, st, i < s.len, f)
+        if r is None:
+            continue
+        if is_any:
+            acc = z3.Or(z3.And(i < s.len, r.t), acc)
+        else:
+            acc = z3.And(z3.Implies(i < s.len, r.t), acc)
+    return VBool(simp(acc))
+
+
+def _position(ex, st, args, dest_ty, func, where):
+    s, cap = _iter_items(ex, st, args[0], where)
+    clos = closure_of(args[1])
+    result = none()
+    for i in reversed(range(cap)):
+        def f(s2, i=i):
+            return call_closure(ex, s2, clos, [VRef("val", val=_iter_elem(s, I(i)))], where)
+        r = pure_call(ex, st, i < s.len, f)
+        if r is None:
+            continue
+        result = merge(simp(z3.And(i < s.len, r.t)), some(VInt(I(i), "usize")), result)
+    return result
+
+
+def _find_plain(ex, st, args, dest_ty, func, where):
+    """slice::Iter::find(pred): first element (by reference) satisfying pred"""
+    s, cap = _iter_items(ex, st, args[0], where)
+    clos = closure_of(args[1])
+    result = none()
+    for i in reversed(range(cap)):
+        def f(s2, i=i):
+            el = VRef("val", val=_iter_elem(s, I(i)))
+            return el, call_closure(ex, s2, clos, [VRef("val", val=el)], where)
+        r = pure_call(ex, st, i < s.len, f)
+        if r is None:
+            continue
+        el, ok = r
+        result = merge(simp(z3.And(i < s.len, ok.t)), some(el), result)
+    return result
+
+
+def _bool_then(ex, st, args, dest_ty, func, where):
+    b, clos = args[0], closure_of(args[1])
+    if z3.is_false(simp(b.t)):
+        return none()
+    r = pure_call(ex, st, b.t, lambda s2: call_closure(ex, s2, clos, [], where))
+    if r is None:
+        return none()
+    return opt_sym(simp(b.t), r)
+
+
+def _bool_then_some(ex, st, args, dest_ty, func, where):
+    return opt_sym(simp(args[0].t), args[1])
+
+
+def _opt_unwrap_or(ex, st, args, dest_ty, func, where):
+    o, d = args
+    if 1 not in o.pay:
+        return d
+    return merge(simp(o.discr == 1), o.pay[1][0], d)
+
+
+def _opt_map(ex, st, args, dest_ty, func, where):
+    o, clos = args[0], closure_of(args[1])
+    if 1 not in o.pay:
+        return none()
+    r = pure_call(ex, st, o.discr == 1, lambda s2: call_closure(ex, s2, clos, [o.pay[1][0]], where))
+    if r is None:
+        return none()
+    return opt_sym(simp(o.discr == 1), r)
+
+
+def _seq_first_last(ex, st, args, dest_ty, func, where):
+    s = deep(ex, st, args[0])
+    last = func.endswith("::last")
+    if isinstance(s, VSeq):
+        idx = simp(s.len - 1) if last else I(0)
+        return opt_sym(simp(s.len > 0), VRef("val", val=VInt(s.at(idx), s.elem)))
+    if isinstance(s, VList):
+        if not s.items:
+            return none()
+        idx = simp(s.len - 1) if last else I(0)
+        return opt_sym(simp(s.len > 0), VRef("val", val=list_get(s, idx)))
+    raise Unsupported("first/last on %r" % (s,))
+
+
 # ----------------------------------------------------------------- HashMap<K, V> as an association list (math map)
 
 def _hm_new(ex, st, args, dest_ty, func, where):
@@ -494,7 +603,14 @@ def _box_into_vec(ex, st, args, dest_ty, func, where):
 def install(ex, window_cap, byte_cap, cand_cap):
     ex.window_cap, ex.byte_cap, ex.cand_cap = window_cap, byte_cap, cand_cap
     ex.hash_cap = byte_cap
-    ex.D = z3.Function("D", *([z3.IntSort()] * (window_cap + 2)))
+    uf = z3.Function("D", *([z3.IntSort()] * (window_cap + 2)))
+    ex.D_apps = []
+
+    def D(*args):
+        t = uf(*args)
+        ex.D_apps.append((args, t))
+        return t
+    ex.D = D
     ex.tolerate_rawbox = True
     M = []
 
@@ -537,6 +653,14 @@ def install(ex, window_cap, byte_cap, cand_cap):
     A(r" as Iterator>::collect::<Vec<BlockSignature>>$", _collect_vec, "Map<Enumerate<Chunks>>::collect::<Vec<_>>")
     A(r"^<std::iter::FilterMap<.*> as Iterator>::sum::<u64>$", _sum, "FilterMap::sum::<u64>")
     A(r"^<std::iter::Map<std::slice::Iter<'_, usize>, .*> as Iterator>::find::<", _find, "Map<slice::Iter<usize>>::find (first match)")
+    A(r"^<std::slice::Iter<'_, \w+> as Iterator>::(any|all)::<", _any_all, "slice::Iter::{any,all} (closure from MIR)")
+    A(r"^<std::slice::Iter<'_, \w+> as Iterator>::position::<", _position, "slice::Iter::position")
+    A(r"^<std::slice::Iter<'_, \w+> as Iterator>::find::<", _find_plain, "slice::Iter::find")
+    A(r"<impl bool>::then::<", _bool_then, "bool::then")
+    A(r"<impl bool>::then_some::<", _bool_then_some, "bool::then_some")
+    A(r"^(std::option::)?Option::<.*>::unwrap_or$", _opt_unwrap_or, "Option::unwrap_or")
+    A(r"^(std::option::)?Option::<.*>::map::<", _opt_map, "Option::map")
+    A(r"^core::slice::<impl \[\w+\]>::(first|last)$", _seq_first_last, "<[T]>::{first,last}")
     A(r"^HashMap::<.*>::with_capacity_and_hasher$", _hm_new, "HashMap::with_capacity_and_hasher (math map)")
     A(r"^HashMap::<.*>::entry$", _hm_entry, "HashMap::entry")
     A(r"Entry::<'_, .*>::or_default$", _hm_or_default, "Entry::or_default")
